@@ -4,9 +4,9 @@ use crate::case::{GenInfo, StreamCase};
 use crate::core::{guarded, panic_site, run_seed, RunResult, Stats, Tier, Violation};
 use crate::exec::Executor;
 use crate::faults::Confine;
-use crate::model::{cut_all, read_res, Cut, Res};
+use crate::model::{cut_all_lim, read_res, Cut, Res};
 use crate::rng::{Fnv, Rng};
-use crate::scen_common::{build, draw_capacities, draw_filter, BuildOpts, CallPlan, Next};
+use crate::scen_common::{build, draw_capacities, draw_filter, draw_tight_capacities, BuildOpts, CallPlan, Next};
 use crate::source::{Core, Dec, ParkLot, Policy, ScriptedPoll};
 use dlt_core::filtering::ProcessedDltFilterConfig;
 use dlt_core::read::DltMessageReader;
@@ -56,9 +56,18 @@ pub fn generate(seed: u64, run: u64, _tier: Tier, st: &mut Stats) -> StreamCase 
             biggest = m;
         }
     }
-    let (buf_cap, msg_max) = draw_capacities(&mut rs, biggest, storage, 4);
+    let (mut buf_cap, mut msg_max) = draw_capacities(&mut rs, biggest, storage, 4);
     let filter = draw_filter(&mut rw, alphabet, 30);
     let sched_seed = rs.next_u64();
+    let mut rt = Rng::fork(s, 4);
+    let mut tight_max = false;
+    if rt.chance(1, 12) {
+        if let Some((b2, m2)) = draw_tight_capacities(&mut rt, biggest, storage) {
+            buf_cap = b2;
+            msg_max = m2;
+            tight_max = true;
+        }
+    }
     let mut case = StreamCase {
         prop: "C08".into(),
         mode: "poll".into(),
@@ -67,6 +76,7 @@ pub fn generate(seed: u64, run: u64, _tier: Tier, st: &mut Stats) -> StreamCase 
         filter,
         buf_cap,
         msg_max,
+        tight_max,
         gen: Some(GenInfo { policy: policies[0].clone(), sched_seed, co_policies: policies[1..].to_vec() }),
         notes,
         seed,
@@ -98,7 +108,7 @@ async fn reader_task(
     } else {
         DltStreamReader::with_capacity(caps.0, caps.1, src, storage)
     };
-    let mut plan = CallPlan::new(&data, storage);
+    let mut plan = CallPlan::new_lim(&data, storage, caps.1);
     loop {
         let r = dlt_core::stream::read_message(&mut reader, filter.as_ref()).await;
         let res = read_res(&r);
@@ -121,7 +131,7 @@ pub fn reference(eff: &[u8], storage: bool, caps: (usize, usize), filter: Option
     } else {
         DltMessageReader::with_capacity(caps.0, caps.1, eff, storage)
     };
-    let mut plan = CallPlan::new(eff, storage);
+    let mut plan = CallPlan::new_lim(eff, storage, caps.1);
     let mut results = vec![];
     loop {
         let r = match guarded(|| dlt_core::read::read_message(&mut reader, filter)) {
@@ -196,7 +206,7 @@ pub fn execute(case: &StreamCase, st: &mut Stats) -> Exec {
         let data = &media[t];
         let failed = core.failed.is_some();
         let eff: &[u8] = if failed || core.eof_forced { &data[..core.pos] } else { &data[..] };
-        let (pieces, term) = cut_all(eff, case.storage);
+        let (pieces, term) = cut_all_lim(eff, case.storage, case.msg_max);
         let mut results = out.results.clone();
         if let Some(p) = &ex.tasks[t].panicked {
             results.push(Res::Panic(p.clone()));
@@ -214,6 +224,14 @@ pub fn execute(case: &StreamCase, st: &mut Stats) -> Exec {
         st.add("source_early_eof", core.stats.early_eof);
         st.add("source_hard_errors", core.stats.hard_errors);
         st.add("records_expected", pieces.len() as u64);
+        match term {
+            Cut::ShortLen(_) => st.inc("term_shortlen"),
+            Cut::Oversize(_) => st.inc("term_oversize"),
+            Cut::Eos(0) => st.inc("term_clean_eos"),
+            Cut::Eos(_) => st.inc("term_partial_header"),
+            Cut::Short { .. } => st.inc("term_short_record"),
+            Cut::Piece(_) => {}
+        }
         if !pieces.is_empty() && (core.inner_boundaries() > 0 || core.stats.pending > 0) {
             nontrivial = true;
         }
@@ -262,7 +280,7 @@ pub fn execute(case: &StreamCase, st: &mut Stats) -> Exec {
         // b) terminal outcome of the same kind
         let a = results.get(n_main);
         let b = refr.get(n_main);
-        if let Cut::ShortLen(_) = term {
+        if let Cut::ShortLen(_) | Cut::Oversize(_) = term {
             // nothing is required of either reader beyond not panicking
         } else if failed {
             if !matches!(a, Some(r) if *r == Res::None || r.is_err()) {
@@ -294,6 +312,9 @@ pub fn execute(case: &StreamCase, st: &mut Stats) -> Exec {
     st.add("exec_ticks", ex.stats.ticks);
     if media.len() > 1 {
         st.inc("runs_multi_task");
+    }
+    if case.tight_max {
+        st.inc("runs_with_tight_message_max_len");
     }
     h.bytes(&ex.taken);
     key.bytes(&ex.taken);
